@@ -158,15 +158,16 @@ class SqliteDLQMixin:
         conn.execute(
             f"""
             INSERT INTO {self.table_name} (
-                message_id, message_type, payload, deliver_at, attempts
+                message_id, message_type, payload, deliver_at, attempts, max_attempts
             ) VALUES (
-                :message_id, :message_type, :payload, datetime('now', 'utc'), 0
+                :message_id, :message_type, :payload, datetime('now', 'utc'), 0, :max_attempts
             )
             """,
             {
                 "message_id": str(uuid.uuid4()),
                 "message_type": row["message_type"],
                 "payload": row["payload"],
+                "max_attempts": getattr(self, "max_attempts", 10),
             },
         )
         conn.commit()
